@@ -294,3 +294,36 @@ Proof.
   destruct (echo_spec_outside cs (mget (s_mem s) KBDR) q buf Hbits Hlen) as [E1 E2].
   rewrite E1, E2 in Hdev. exists s'. repeat split; assumption.
 Qed.
+
+(* ------------------------------------------------------------------ the witnesses *)
+(* the harness program `getc_out` for one byte: x3000 LD R1,CNT ; GETC ; OUT ; ADD R1,R1,#-1 ; BRp x3001 ; HALT ; CNT .fill 1 *)
+Definition wit_state : sim :=
+  user_machine (mkFlags false false false false) 0 (repeat (new_init 0) 8) 12288 32770
+    [(12288, new_init 8709); (12289, new_init 61472); (12290, new_init 61473); (12291, new_init 4735);
+     (12292, new_init 1020); (12293, new_init 61477); (12294, new_init 1)] [65] [].
+Definition free_env : env := mkEnv false false [].
+(* keyboard lock held during instruction 4 only: the KBDR read that follows the ready KBSR poll of instruction 2 *)
+Definition wit_kb : sched := fun t => if Nat.eqb t 4 then mkEnv true false [] else free_env.
+(* display lock held during instruction 13 only: the DDR write that follows the ready DSR poll of instruction 9 *)
+Definition wit_ds : sched := fun t => if Nat.eqb t 13 then mkEnv false true [] else free_env.
+
+Lemma wit_kb_eventually_free : eventually_free wit_kb.
+Proof. exists 5%nat. intros t Ht. unfold kb_locked_at, ds_locked_at, wit_kb. replace (Nat.eqb t 4) with false by (symmetry; apply Nat.eqb_neq; lia). split; reflexivity. Qed.
+Lemma wit_ds_eventually_free : eventually_free wit_ds.
+Proof. exists 14%nat. intros t Ht. unfold kb_locked_at, ds_locked_at, wit_ds. replace (Nat.eqb t 13) with false by (symmetry; apply Nat.eqb_neq; lia). split; reflexivity. Qed.
+
+(* free pattern: the byte is received and shown once *)
+Lemma wit_free_run :
+  let r := run (fun _ => free_env) 0 17 wit_state in
+  snd r = OOk /\ s_pc (fst r) = 12293 /\ s_devs (fst r) = kdevs [] [65].
+Proof. vm_compute. repeat split; reflexivity. Qed.
+(* keyboard witness: the program receives the stale word 0, byte 65 stays queued, a spurious 0 is shown *)
+Lemma wit_kb_run :
+  let r := run wit_kb 0 17 wit_state in
+  snd r = OOk /\ s_pc (fst r) = 12293 /\ s_devs (fst r) = kdevs [65] [0] /\ rget (s_regs (fst r)) 0 = new_init 0.
+Proof. vm_compute. repeat split; reflexivity. Qed.
+(* display witness: byte 65 is received but never shown *)
+Lemma wit_ds_run :
+  let r := run wit_ds 0 17 wit_state in
+  snd r = OOk /\ s_pc (fst r) = 12293 /\ s_devs (fst r) = kdevs [] [] /\ rget (s_regs (fst r)) 0 = new_init 65.
+Proof. vm_compute. repeat split; reflexivity. Qed.
